@@ -55,7 +55,15 @@ def history(tid, rng, solver, circuit, steps, meta):
         try:
             with warnings.catch_warnings():
                 warnings.simplefilter("ignore")
-                getattr(solver, move)(circuit)
+                if move == "remove_op" and rng.random() < 0.5:
+                    # the caller-chosen form of the move: any operation node, also a protected one (must be a no-op then)
+                    from graphiq.circuit import ops as gops
+                    cand = [n for n in circuit.dag.nodes
+                            if not isinstance(circuit.dag.nodes[n]["op"], gops.InputOutputOperationBase)]
+                    if cand:
+                        solver.remove_op(circuit, node=rng.choice(cand))
+                else:
+                    getattr(solver, move)(circuit)
                 circuit.validate()
             e["obs"] = cz.dag_obs(circuit, [])
         except Exception as ex:
